@@ -31,7 +31,9 @@ class OriginalLocation:
         if path_maker_type == PathMakerType.AbsolutePaths:
             return parent
         if path_maker_type == PathMakerType.RelativePaths:
+            # the top directory '/' already ends with the separator
+            top_dir = volume_top_dir.rstrip(os.path.sep)
             if (parent == volume_top_dir) or parent.startswith(
-                    volume_top_dir + os.path.sep):
-                parent = parent[len(volume_top_dir + os.path.sep):]
+                    top_dir + os.path.sep):
+                parent = parent[len(top_dir + os.path.sep):]
             return parent
